@@ -29,6 +29,7 @@ EXPLANATION = (
     "per-bit truth table decides it exactly: match <=> mask bit set or address bit == base bit (a form that is not "
     "bit-parallel, e.g. with shifts or subtraction, is evaluated by the analyser's own expression evaluator on 32-bit words "
     "built from a few octet patterns: a disagreement with 'ignore the wildcard bits' is reported as a violation with the "
+    "R7.6 the numeric settings this property depends on are never tested by truthiness (`x or default`, `if x:`), because 0 is a legal value for them. "
     "counterexample, sampled agreement proves nothing and ends fail-closed in ANALYSIS-ERROR). NOT decided: IPv4Address equality itself and "
     "bounded-exhaustive verdict equivalence against a reference filter."
 )
@@ -454,3 +455,5 @@ def check(ctx: Ctx) -> None:
     r7_2(ctx)
     r7_3(ctx)
     r7_4(ctx)
+    from .common import falsy_numeric
+    falsy_numeric(ctx, "R7.6", r"position", "ACL positions (position 0 is the first rule)")
